@@ -85,6 +85,16 @@ HANDWRITTEN = [
     ('wide-auto-short-literal', 'int f(void) { unsigned b[10] = U"xyz"; unsigned short h[9] = u"ab"; int w[7] = L"q"; unsigned e[4] = U""; return b[4] + h[5] + w[3] + e[1]; }\n'),
     ('variadic-many-arguments', 'int sum(int n, ...); int printf(const char *, ...); int f(int a) { return sum(12, 1, 2, 3, 4, 5, 6, 7, 8, 9, 10, 11, 12) + printf("%d %d %d %d %d %d %d %s\\n", a, 2, 3, 4, 5, 6, 7, "x") + sum(0); }\n'
                                 'int g(int (*v)(int, ...)) { return v(1, 2.0, 3L, "s", 4, 5, 6, 7, 8, 9, 10, 11, 12, 13, 14, 15, 16, 17, 18, 19, 20); }\n'),
+    # round 19: integer[pointer] subscripts, function types of different arity (both orders), copies of structs whose size is
+    # not a multiple of the copy step or is zero, function definitions through a typedef (invalid)
+    ('reversed-subscript', 'int tab[4]; int f(int *p, int i) { return i[p] + 2[tab] + 1[p + 1] + (i + 1)[tab]; }\n'),
+    ('function-arity-compat', 'int (*fa)(int, int); int k = _Generic(fa, int (*)(int): 1, int (*)(int, int): 2, default: 0); int k2 = __builtin_types_compatible_p(int (*)(int, int, int), int (*)(int)),\n'
+                              '  k3 = __builtin_types_compatible_p(int (*)(int), int (*)(int, int, int)), k4 = __builtin_types_compatible_p(int (*)(void), int (*)(int)), k5 = __builtin_types_compatible_p(int (*)(int), int (*)(void));\n'),
+    ('function-arity-redecl-longer-first', 'int f(int, int); int f(int);\n'), ('function-arity-redecl-shorter-first', 'int f(void); int f(int);\n'), ('function-arity-redecl-void-second', 'int f(int, int, int); int f(void);\n'),
+    ('copy-odd-size-structs', 'struct __attribute__((packed)) P { _Alignas(4) char c; char d[5]; }; struct Z { int a[0]; }; struct T3 { char c[3]; }; struct T7 { short s[3]; char c; };\n'
+                              'void f(struct P *a, struct P *b, struct Z *y, struct Z *z, struct T3 *t, struct T3 *u, struct T7 *v, struct T7 *w) { *a = *b; *y = *z; *t = *u; *v = *w; }\n'
+                              'struct P gp(struct P x) { struct P l = x; return l; } struct Z gz(struct Z x) { struct Z l = x; return l; }\n'),
+    ('definition-through-typedef', 'typedef int handler(int); handler second { return 0; }\n'),
     ('define-identical-inside-call', '#define H(x) x + x\nint c = H(\n#define H(x) x + x\n4);\n#define W(a, b) #a b\nconst char *s = W(q,\n#define W(a, b) #a b\n"r");\nint d = H(1);\n'),
     ('define-identical-after-use', '#define H(x) x + x\nint c = H(1);\n#define H(x) x + x\nint d = H(2);\n#define H(x) x + x\n#define K 1\n#define K 1\nint e = K;\n'),
     ('define-inside-call', '#define H(x) x\nint c = H(\n#define H(x) x x\n4);\n'),
